@@ -107,7 +107,7 @@ func (a *Act) load(st *State, ref Term, t types.Type) Term {
 				as = append(as, a.load(st, app("sub", ref, intLit(int64(i))), f.Type))
 			} else {
 				h, hs := d.FieldHeap(t, i)
-				as = append(as, sel(st.heap(h, hs), ref))
+				as = append(as, hsel(st.u, st.heap(h, hs), ref))
 			}
 		}
 		return app("mk_"+si.Sort, as...)
@@ -120,12 +120,12 @@ func (a *Act) load(st *State, ref Term, t types.Type) Term {
 		v := d.Zero(t)
 		eh := a.elemHeap(arr.Elem())
 		for i := int64(0); i < arr.Len(); i++ {
-			v = store(v, intLit(i), sel(st.heap(eh.name, eh.sort), app("elem", ref, intLit(i))))
+			v = store(v, intLit(i), hsel(st.u, st.heap(eh.name, eh.sort), app("elem", ref, intLit(i))))
 		}
 		return v
 	}
 	h, hs := d.CellHeap(t)
-	return sel(st.heap(h, hs), ref)
+	return hsel(st.u, st.heap(h, hs), ref)
 }
 
 func (a *Act) store(st *State, ref Term, t types.Type, v Term) {
@@ -249,7 +249,7 @@ func (a *Act) loadPtr(st *State, p Val, pos token.Pos, what string) Term {
 			v, _ := a.project(base, derefType(p.Loc.Local.Type()), p.Loc.Path)
 			return v
 		}
-		v := sel(st.heap(p.Loc.Heap, p.Loc.HSort), p.Loc.Ref)
+		v := hsel(st.u, st.heap(p.Loc.Heap, p.Loc.HSort), p.Loc.Ref)
 		if p.Loc.RootT != nil {
 			v, _ = a.project(v, p.Loc.RootT, p.Loc.Path)
 		}
@@ -277,7 +277,7 @@ func (a *Act) storePtr(st *State, p Val, v Term, pos token.Pos, what string) {
 			return
 		}
 		if p.Loc.RootT != nil {
-			v = a.update(sel(st.heap(p.Loc.Heap, p.Loc.HSort), p.Loc.Ref), p.Loc.RootT, p.Loc.Path, v)
+			v = a.update(hsel(st.u, st.heap(p.Loc.Heap, p.Loc.HSort), p.Loc.Ref), p.Loc.RootT, p.Loc.Path, v)
 		}
 		st.setHeap(p.Loc.Heap, p.Loc.HSort, store(st.heap(p.Loc.Heap, p.Loc.HSort), p.Loc.Ref, v))
 		return
